@@ -375,6 +375,8 @@ impl Exec {
                 self.env_fault(op, p);
                 Ok(Out::Unit)
             }
+            // performed by the run loop (it owns the stack); here a no-op
+            Op::Reopen => Ok(Out::Unit),
         }
     }
 
